@@ -264,6 +264,35 @@ def run_tour(comp, tier, seed, t=None):
     return outp, n, len(edges)
 
 
+def run_apalache(comp):
+    """unbounded safety of a small typed module: the inductive invariant is discharged by Apalache
+    (base case at length 0 from Init, inductive step at length 1 from an arbitrary state satisfying it)"""
+    a = COMPONENTS[comp].get('apalache')
+    if not a:
+        return None
+    mod = os.path.join(SPEC, a['module'])
+    key = spec_hash([mod])
+    cache = os.path.join(WORK, 'mc_cache', 'apalache_' + key + '.json')
+    if os.path.exists(cache):
+        return json.load(open(cache))
+    outd = os.path.join(WORK, 'apalache_' + key)
+    res = {'module': a['module'], 'invariant': a['inv'], 'obligations': []}
+    for name, init, length in (('base', a['init'], 0), ('step', a['indinit'], 1)):
+        t = time.time()
+        rc, out = sh(['timeout', '900', 'apalache-mc', 'check', '--cinit=' + a['cinit'], '--init=' + init, '--inv=' + a['inv'], '--length=%d' % length,
+                      '--out-dir=' + outd, mod], cwd=os.path.dirname(mod))
+        ok = 'EXITCODE: OK' in out
+        res['obligations'].append({'name': name, 'ok': ok, 'wall_s': round(time.time() - t, 1)})
+        if not ok:
+            log(out[-1500:])
+            shutil.rmtree(outd, ignore_errors=True)
+            raise ToolError('Apalache did not discharge the %s obligation of %s' % (name, a['inv']))
+    shutil.rmtree(outd, ignore_errors=True)
+    os.makedirs(os.path.dirname(cache), exist_ok=True)
+    json.dump(res, open(cache, 'w'))
+    return res
+
+
 def harness(args, timeout=3600):
     rc, out = sh([VH] + args, timeout=timeout)
     if rc != 0:
@@ -481,7 +510,10 @@ def run_part(prop, P, part, tier, seed, workdir, known):
         if dv['rejected']:
             log('DRIFT component=%s %d runs differ from the full model (first: %s)' % (comp, len(dv['rejected']), json.dumps(dv['rejected'][0][2])[:300]))
 
-    return {'comp': comp, 'profile': profile, 'mc': mc, 'gen_n': gen_n, 'tour_n': tour_n, 'tour_edges': tour_edges, 'skipped': skipped, 'tot': tot, 'violations': violations,
+    apal = run_apalache(comp)
+    if apal:
+        log('[%s] Apalache: inductive invariant %s of %s discharged (base + step)' % (prop, apal['invariant'], apal['module']))
+    return {'comp': comp, 'profile': profile, 'mc': mc, 'gen_n': gen_n, 'tour_n': tour_n, 'tour_edges': tour_edges, 'apalache': apal, 'skipped': skipped, 'tot': tot, 'violations': violations,
             'known_hits': known_hits, 'samples': samples, 'selftest': selftest, 'drift': drift}
 
 
@@ -546,7 +578,7 @@ def check(prop, tier, seed, replay=None):
             'tlc_generated_behaviours_replayed': gen_n, 'tour_transitions_replayed': tour_n, 'tour_transitions_in_model': tour_edges, 'schedule_steps_skipped': skipped,
             'trace_runs': tot['runs'], 'trace_events': tot['events'], 'trace_validation_states': tot['tlc_states'],
             'profile': profile, 'selftest': selftest, 'drift': drift,
-            'known_findings_matched': len(known_hits),
+            'known_findings_matched': len(known_hits), 'apalache': [r.get('apalache') for r in results if r.get('apalache')],
             'checker_cmd': './check %s --tier %s' % (prop, tier),
             'exhaustive': False,
         },
